@@ -391,6 +391,21 @@ func c10Run(c *Ctx) {
 			}
 		}
 	}
+	for _, lit := range []string{"500", "25", "1\u09e8.\u09eb", "\u09eb\u09e6\u09e6", "0.5", "7"} {
+		for _, form := range []string{Print("/*c*/%s"), Print("/* c */%s/* d */"), Print("%s/*c*/ + /*d*/%s"), Print("/*x*/%s == /*x*/ %s"), Var("lim", "/*\u09e7\u09e6\u09e6*/%s") + " " + Print("lim"), Print("[/*a*/%s,/*b*/%s/*c*/]"), Print("1 +//c\n%s"), Print("/**/%s/**/"), Print("/***/%s"), Print("(/*c*/%s)")} {
+			src := strings.ReplaceAll(form, "%s", lit) + "\n"
+			if c.Mine() {
+				c10Judge(c, &Case{Gen: "end-to-end", Src: src})
+			}
+		}
+	}
+	// interactive mode: a literal means the same on every line, whatever earlier lines did
+	for _, bad := range []string{Print("nope"), "[1][5];", Print("1 / 0"), Print("1" + strings.Repeat("0", 309))} {
+		lines := []string{Print("\u09ea\u09e8"), bad, Print("\u09ea\u09e8"), Print("4\u09e8.\u09eb"), Print("12 == \u09e7\u09e8"), bad, "0.1 + 0.2;", "1000000;"}
+		if c.Mine() {
+			c10Judge(c, &Case{Gen: "repl-literals", Src: strings.Join(lines, "\n"), X: map[string]string{"final_newline": "1", "all_self": "1"}})
+		}
+	}
 	for _, pair := range [][2]string{{"1", `"1"`}, {"\u09e7", `"1"`}, {"2.5", `"2.5"`}, {"0", `"0"`}, {"1000000", `"1e+06"`}, {"7", `"7"`}, {"1", "\"\u09e7\""}, {"10", `"10"`}, {"0.5", `"0.5"`}} {
 		n, t := pair[0], pair[1]
 		for _, src := range []string{
@@ -417,6 +432,10 @@ func randDigits(r *Rng, n int) string {
 }
 
 func c10Judge(c *Ctx, cs *Case) {
+	if cs.Gen == "repl-literals" {
+		c20Judge(c, cs)
+		return
+	}
 	c.Begin(cs)
 	ok := false
 	switch {
@@ -453,7 +472,7 @@ func init() {
 		Assumptions: []string{"math/big rational arithmetic is exact", "math.Nextafter gives the adjacent doubles"},
 		Run:         c10Run,
 		Judge:       c10Judge,
-		MustCount:   func(c *Ctx) []string { return []string{"gen:codepoint", "digit_codepoints", "foreign_digit_codepoints_rejected", "gen:random-midpoint", "gen:random-subnormal", "gen:random-overflow-threshold", "overflow_literals", "respellings", "cli_runs", "gen:end-to-end", "gen:end-to-end-cli"} },
+		MustCount:   func(c *Ctx) []string { return []string{"gen:codepoint", "digit_codepoints", "foreign_digit_codepoints_rejected", "gen:random-midpoint", "gen:random-subnormal", "gen:random-overflow-threshold", "overflow_literals", "respellings", "cli_runs", "gen:end-to-end", "gen:end-to-end-cli", "gen:repl-literals"} },
 		Exhaustive:  func(string) bool { return false },
 	})
 }
